@@ -21,7 +21,7 @@ Definition ss_flat_oc (o : ss_oc) : list Z := [oc_id o; oc_blobber o; oc_created
 
 Definition ss_flat_alloc (a : ss_alloc) : list Z :=
   [al_id a; al_owner a; al_start a; al_exp a; al_size a; al_data a; al_parity a; al_wpool a; al_mtc a; al_mb a; al_mtv a;
-   ss_b2z (al_tpe a); al_used a; al_tot a; al_open a; al_succ a; al_fail a; ss_cpz a; ss_b2z (al_chnode a);
+   ss_b2z (al_tpe a); al_used a; al_tot a; al_open a; al_succ a; al_fail a; ss_cpz a; ss_b2z (al_chnode a); al_tu a;
    Z.of_nat (length (al_bas a))] ++ flat_map ss_flat_ba (al_bas a) ++
   [Z.of_nat (length (al_ocs a))] ++ flat_map ss_flat_oc (al_ocs a).
 
@@ -58,19 +58,23 @@ Definition ss_digest (c : ss_conf) (s : ss_state) : list Z :=
    ss_sum (map snd (st_rpools s));
    ss_bal s (cf_sc c)].
 
-Fixpoint ss_run_dig (c : ss_conf) (s : ss_state) (ts : list (Z * Z * ss_op)) : ss_state * list (bool * list Z) :=
-  match ts with
+Fixpoint ss_run_dig (c : ss_conf) (s : ss_state) (evs : list ss_ev) : ss_state * list (bool * list Z) :=
+  match evs with
   | [] => (s, [])
-  | t :: tl =>
+  | EvTxn t :: tl =>
       let '(s1, ok) := ss_step_w c s t in
       let '(s2, r) := ss_run_dig c s1 tl in
       (s2, (ok, ss_digest c s1) :: r)
+  | EvTimeUnit tu :: tl =>
+      let c' := cf_with_tu c tu in
+      let '(s2, r) := ss_run_dig c' s tl in
+      (s2, (true, ss_digest c' s) :: r)
   end.
 
 Record ss_case := {
   sc_conf : ss_conf;
   sc_init : ss_state;
-  sc_ops : list (Z * Z * ss_op);
+  sc_ops : list ss_ev;
   sc_obs : list (bool * list Z);       (* accepted?, digest after the transaction *)
   sc_keys : list Z; sc_akeys : list Z; sc_rkeys : list (Z * Z * Z); sc_nchal : nat;
   sc_final : list Z
